@@ -178,6 +178,41 @@ def main():
             if not ok:
                 bad += 1
                 print("STR FACT FAILS", name, repr(s_), repr(t_), repr(u_), i_)
+    # ---- the TEXT-level definitions of contracts/C01.py: comment_text_lemmas (lstrip, removesuffix, the reader's comment prefix)
+    import re
+
+    sys.path.insert(0, os.environ.get("VERIF_REPO", "/repo"))
+    import contracts.C01 as C01
+
+    D = C01.comment_text_lemmas(definitions_only=True)
+    pat = re.compile(D["pattern"])
+    ztrue = lambda fs: all(z3.is_true(z3.simplify(f)) for f in fs)
+    V = z3.StringVal
+    blanks = " \t\x0c\x1c\u00a0\u2003\n\r"
+    for _ in range(cases * 4):
+        s_ = "".join(rng.choice(blanks + "#ab:\u200b") for _ in range(rng.randint(0, 7)))
+        u_ = s_.lstrip()
+        w_ = s_[: len(s_) - len(u_)]
+        if not ztrue(D["is_lstrip"](V(s_), V(w_), V(u_))):
+            bad += 1
+            print("TEXT DEFINITION: lstrip", repr(s_))
+        for wrong in {s_[k:] for k in range(len(s_) + 1)} - {u_}:  # no other suffix satisfies the definition
+            if ztrue(D["is_lstrip"](V(s_), V(s_[: len(s_) - len(wrong)]), V(wrong))):
+                bad += 1
+                print("TEXT DEFINITION: lstrip is not unique", repr(s_), repr(wrong))
+        if not ztrue(D["removesuffix"](V(s_), V(s_.removesuffix("\n")), "\n")):
+            bad += 1
+            print("TEXT DEFINITION: removesuffix", repr(s_))
+        if ztrue([z3.InRe(V(s_), D["no_break"])]) != (("\n" not in s_) and ("\r" not in s_)):
+            bad += 1
+            print("TEXT DEFINITION: no_break", repr(s_))
+        mt = getattr(pat, D["method"])(s_)
+        if mt is not None and not ztrue([z3.InRe(V(mt.group(0)), D["matched"])]):
+            bad += 1
+            print("TEXT DEFINITION: the matched prefix is not in the pattern's language", repr(s_))
+        if (mt is not None) != any(ztrue([z3.InRe(V(s_[:k]), D["matched"])]) for k in range(len(s_) + 1)):
+            bad += 1
+            print("TEXT DEFINITION: the comment test is not 'some prefix is in the pattern's language'", repr(s_))
     print("xcheck_strmodel:", "OK" if not bad else f"{bad} mismatches", f"({cases} cases per model)")
     return 1 if bad else 0
 
